@@ -85,6 +85,59 @@ func (s *choiceSrc) Read(p []byte) (int, error) {
 	return n, nil
 }
 
+// transientReader delivers data but fails exactly once, at offset k, with (0, err); afterwards it
+// carries on (a temporary error of a socket). Before the failure no Read crosses offset k.
+type transientReader struct {
+	data  []byte
+	pos   int
+	k     int
+	err   error
+	fired bool
+}
+
+func (t *transientReader) Read(p []byte) (int, error) {
+	if len(p) == 0 {
+		return 0, nil
+	}
+	if !t.fired && t.pos == t.k {
+		t.fired = true
+		return 0, t.err
+	}
+	if t.pos >= len(t.data) {
+		return 0, io.EOF
+	}
+	n := len(p)
+	if r := len(t.data) - t.pos; r < n {
+		n = r
+	}
+	if !t.fired && t.pos < t.k && n > t.k-t.pos {
+		n = t.k - t.pos
+	}
+	copy(p[:n], t.data[t.pos:])
+	t.pos += n
+	return n, nil
+}
+
+// flakyWriter accepts k bytes, fails the one Write that crosses offset k (n < len(p), err != nil)
+// and accepts everything afterwards.
+type flakyWriter struct {
+	k     int
+	err   error
+	buf   []byte
+	fired bool
+}
+
+func (f *flakyWriter) Write(b []byte) (int, error) {
+	if !f.fired && len(f.buf)+len(b) > f.k {
+		room := f.k - len(f.buf)
+		f.buf = append(f.buf, b[:room]...)
+		f.fired = true
+		return room, f.err
+	}
+	f.buf = append(f.buf, b...)
+	return len(b), nil
+}
+
 // event is one Read/Write call on which the environment deviated from "everything, no error".
 type event struct {
 	site string // first go-mc function above the call
@@ -166,7 +219,11 @@ func callerSite() (site string, bare bool) {
 		f, more := frames.Next()
 		fn := f.Function
 		if strings.HasPrefix(fn, goMcPrefix) {
-			return strings.TrimPrefix(fn, goMcPrefix), bare
+			fn = strings.TrimPrefix(fn, goMcPrefix)
+			if fn == "net/packet.(*countingReader).Read" || fn == "net/packet.(*countingWriter).Write" {
+				continue // pure forwarders inside go-mc: the caller is the site
+			}
+			return fn, bare
 		}
 		switch {
 		case fn == "io.ReadAtLeast", fn == "io.ReadFull", fn == "io.ReadAll", fn == "io.copyBuffer", fn == "io.Copy", fn == "io.CopyN",
